@@ -113,6 +113,9 @@ func genC16(r *Rng, tier string) *World {
 			if r.P(0.3) {
 				op.ErrAt = 1 // the added test fails / the transform is a plain observer
 			}
+			if op.Arg == "omit" && r.P(0.3) {
+				op.ErrAt = 2 // Omit is also given keys the base does not have
+			}
 			ops = append(ops, op)
 		}
 		w.Tasks = append(w.Tasks, ops)
@@ -356,6 +359,19 @@ func runC16(x *X) *Violation {
 				}
 				live = append(live, &c16live{real: src.real.Pick(args...), m: m})
 			case "omit":
+				// keys the base does not have (other spellings of existing keys among them) name nothing: no effect
+				if op.ErrAt == 2 {
+					dropping := map[string]bool{}
+					for _, k := range keys {
+						dropping[k] = true
+					}
+					for _, k := range sortedKeys(src.m.fields) {
+						if !dropping[k] && src.m.fields[toggleFirst(k)] == nil {
+							args = append(args, toggleFirst(k), k+"x") // not keys of this schema: the fields they resemble stay
+						}
+					}
+					args = append(args, "no_such_key")
+				}
 				m := newm()
 				drop := map[string]bool{}
 				for _, k := range keys {
@@ -494,4 +510,18 @@ func max(a, b int) int {
 		return a
 	}
 	return b
+}
+
+func toggleFirst(k string) string {
+	if k == "" {
+		return k
+	}
+	c := k[0]
+	switch {
+	case c >= 'a' && c <= 'z':
+		return string(c-32) + k[1:]
+	case c >= 'A' && c <= 'Z':
+		return string(c+32) + k[1:]
+	}
+	return k + "_"
 }
